@@ -160,6 +160,25 @@ theorem budget_prefix_refusal (d : Nat) (a b : List Char) (e : BudgetErr)
 theorem budget_length_bounds (s : List Char) : s.length ≤ utf8Len s ∧ utf8Len s ≤ 4 * s.length :=
   utf8Len_bounds s
 
+/-! ## budget_trivia_invariant — comments and whitespace between tokens do not move the depth guard -/
+
+/-- Inserting any trivia (whitespace, complete `//` comments — whatever quotes and brackets they
+contain) at a position where the pre-scan is in code with no `/` pending leaves the rest of the scan,
+hence the depth verdict, unchanged. (The length test sees the longer text, of course.) -/
+theorem budget_trivia_invariant (d : Nat) (a t b : List Char) (st : BState)
+    (ha : scan d {} a = .ok st) (hcode : st.lex = {}) (ht : Trivia t) :
+    scan d {} (a ++ (t ++ b)) = scan d {} (a ++ b) := by
+  rw [budget_linear, budget_linear d a b, ha]
+  simp only []
+  obtain ⟨stk, l⟩ := st
+  simp only at hcode
+  subst hcode
+  exact scan_trivia d ht stk b
+
+example : validateBudget 100 1 "f(x) // \" ((((( [\n\t(y)".toList = .ok () ∧
+          validateBudget 100 1 "f(x) (y)".toList = .ok () ∧
+          validateBudget 100 1 "f(x ((y)".toList = .error .tooDeep := by decide
+
 /-! ## classify — the family is decided by the text alone
 
 `classify` is the first step of every family's parser (`ws(word(HEAD))`): if `parse_kip` returns a
@@ -183,6 +202,12 @@ theorem classify_invariant_trivia (uni : Char → Bool) (t s : List Char) (ht : 
     classify uni (t ++ s) = classify uni s := by
   unfold classify
   rw [skipTrivia_trivia ht]
+
+/-- Both at once (the name used in DESIGN.md): re-casing and leading trivia together. -/
+theorem classify_invariant (uni : Char → Bool) (pre s t : List Char) (hpre : Trivia pre)
+    (h : s.map foldNat = t.map foldNat) : classify uni (pre ++ s) = classify uni t := by
+  rw [classify_invariant_trivia uni pre s hpre]
+  exact classify_invariant_case uni s t h
 
 /-- At most one head keyword matches a text, whatever follows it. -/
 theorem classify_exclusive (uni : Char → Bool) (s : List Char) (e1 e2 : Family × List Char)
@@ -270,5 +295,58 @@ example : classify (fun c => c == 'é') "FINDé".toList = none ∧
           classify (fun _ => false) "FIND (".toList = some .kql := by decide
 example : Trivia " //x\n\t".toList :=
   .ws ' ' _ (by decide) (.comment ['x'] _ (by decide) (.ws '\t' _ (by decide) .nil))
+
+/-! ## Multi-word keywords: the gap between the words admits the same trivia as every other gap
+
+Before /repo commit b2b3330 `trivia1` used `multispace1` and this statement was false of the code
+(`AS<U+000C>OF` was refused, witness kept as corpus case 32). The model of `words` / `trivia1` is tied
+to the code by the translator (`trivia1Whitespace`) and by the `w` requests of the harness. -/
+
+/-- The whitespace class of `trivia1` in the current source is the one the model uses. -/
+theorem gen_trivia1_match_model : trivia1Whitespace = "char::is_whitespace" := by decide
+
+/-- Any non-empty trivia is accepted between two words and leaves what `skip_ws_and_comments` leaves. -/
+theorem words_trivia1_accepts (t s : List Char) (ht : Trivia t) (hne : t ≠ []) :
+    trivia1 (t ++ s) = some (skipTrivia s) := by
+  have hskip := skipTrivia_trivia ht s
+  cases ht with
+  | nil => exact absurd rfl hne
+  | ws c t' hc ht' =>
+    simp only [List.cons_append, trivia1, hc, if_true]
+    rw [List.cons_append, skipTrivia_cons, hc] at hskip
+    simp only [if_true] at hskip
+    rw [← hskip]
+    -- dropping leading whitespace first does not change what skipTrivia returns
+    have hdrop : ∀ l : List Char, skipTrivia (l.dropWhile isWhitespace) = skipTrivia l := by
+      intro l
+      induction l with
+      | nil => rfl
+      | cons a as ih =>
+        by_cases ha : isWhitespace a = true
+        · rw [List.dropWhile_cons_of_pos ha, ih, skipTrivia_cons a as, ha]; simp
+        · rw [List.dropWhile_cons_of_neg ha]
+    rw [hdrop]
+  | comment body t' hb ht' =>
+    have hm : isWhitespace '/' = false := by decide
+    simp only [List.cons_append, trivia1, hm]
+    simp only [Bool.false_eq_true, if_false, beq_self_eq_true, if_true]
+    rw [← hskip]
+    simp
+
+/-- Full statement: any two non-empty trivia are interchangeable between the words of a keyword. -/
+theorem words_trivia_uniform (uni : Char → Bool) (w1 w2 t1 t2 rest : List Char)
+    (h1 : Trivia t1) (n1 : t1 ≠ []) (h2 : Trivia t2) (n2 : t2 ≠ []) :
+    matchWords uni [w1, w2] (w1 ++ (t1 ++ (w2 ++ rest))) =
+      matchWords uni [w1, w2] (w1 ++ (t2 ++ (w2 ++ rest))) := by
+  have hmk : ∀ (k x : List Char), matchKeyword k (k ++ x) = some x := by
+    intro k x; induction k with
+    | nil => rfl
+    | cons a as ih => simp [matchKeyword, ih]
+  simp only [matchWords, matchWordsTail, hmk, words_trivia1_accepts _ _ h1 n1,
+    words_trivia1_accepts _ _ h2 n2]
+
+example : matchWords (fun _ => false) ["AS".toList, "OF".toList] "as\x0c// c\n of ".toList = true ∧
+          matchWords (fun _ => false) ["AS".toList, "OF".toList] "ASOF".toList = false ∧
+          matchWords (fun _ => false) ["AS".toList, "OF".toList] "AS /OF".toList = false := by decide
 
 end AndaVerif.Props.C15
